@@ -23,7 +23,7 @@ type KnownFinding struct {
 	What       string `json:"what"`
 	Witness    string `json:"witness,omitempty"`
 	Residual   string `json:"residual,omitempty"`
-	ReplayTest string `json:"replay_test,omitempty"` // stand-in/replay that must still confirm the witness
+	WitnessTest *ReplaySpec `json:"witness_test,omitempty"` // a fixed witness run on the real code: it must still fail
 }
 
 type KnownFindings struct {
@@ -245,7 +245,11 @@ func CmdCheck(args []string) int {
 		for _, k := range known.Findings {
 			if k.Property == claim.Property && k.Status == "open" && k.Obligation == f.name {
 				// the listed witness must still fail on the real code (when a replay harness exists)
-				if f.obl != nil && loadReplaySpec(*verif, f.obl.Func) != nil && f.obl.Model != "" {
+				if k.WitnessTest != nil {
+					if ok, _ := runReplay(*verif, *repo, k.WitnessTest, map[string]string{}, f.name); !ok {
+						continue
+					}
+				} else if f.obl != nil && loadReplaySpec(*verif, f.obl.Func) != nil && f.obl.Model != "" {
 					if ok, _ := Replay(*verif, *repo, f.obl); !ok {
 						continue
 					}
@@ -262,7 +266,7 @@ func CmdCheck(args []string) int {
 		path := filepath.Join(replayDir, sanitize(claim.Property+"_"+f.name)+".json")
 		rp := map[string]any{"property": claim.Property, "obligation": f.name, "status": f.status, "what": f.desc, "at": f.pos, "solver_output": f.output}
 		suffix := " no-failing-input-found"
-		if f.hasModel && f.model != "" && f.obl != nil {
+		if f.obl != nil && (f.model != "" || loadReplaySpec(*verif, f.obl.Func) != nil) {
 			m := f.model
 			if len(m) > 3000 {
 				m = m[:3000] + "..."
